@@ -18,6 +18,8 @@ type conc struct {
 	t     *Tape
 	tasks []*ctask
 	steps int
+	// idle, if set, reports that nothing but spinning background work is left
+	idle func() bool
 }
 
 func (c *conc) spawn(id string, f func(ctx context.Context)) *ctask {
@@ -48,6 +50,10 @@ func (c *conc) run(max int, after func() *Violation) (*Violation, bool) {
 	for i := 0; i < max; i++ {
 		keys := S.ParkedKeys()
 		if len(keys) == 0 {
+			return nil, true
+		}
+		if c.idle != nil && c.idle() {
+			// only busy-looping background goroutines are left: treat as quiescent
 			return nil, true
 		}
 		c.t.Frame()
